@@ -269,10 +269,12 @@ func (w *Whisper) FetchFromArchive(arhiveID int, from, until, now Timestamp) (*T
 
 func (w *Whisper) findBestArchive(t, now Timestamp) int {
 	var archiveID int
-	diff := now.Sub(t)
+	// NOTE: compute in int64. now.Sub(t) wraps to a negative Duration
+	// when the difference exceeds 31 bits (e.g. t == 0 and now after 2038).
+	diff := int64(now) - int64(t)
 	for i, retention := range w.ArchiveInfoList() {
 		archiveID = i
-		if retention.MaxRetention() >= diff {
+		if int64(retention.MaxRetention()) >= diff {
 			break
 		}
 	}
